@@ -8,18 +8,27 @@
 (* (Expected): it never depends on what earlier invocations did or on events that       *)
 (* concern them.  TLC emits every history with its expected outcomes.                   *)
 EXTENDS Integers, Sequences, FiniteSets, TLC, Json
-CONSTANT MaxLen
+CONSTANTS MaxLen,   \* longest history
+          MaxLate    \* at most this many late cancellations in one history
 Apis == {"RunCode", "Call"}
-Kinds == {"normal", "error", "panic", "overflow", "cancelled"}
-Expected(kind) == CASE kind = "normal" -> "value" [] kind = "error" -> "index error" [] kind = "panic" -> "panic"
+\* what the invocation does: finishes normally, raises a run-time error three calls deep, provokes a recovered Go
+\* panic at once or 600 script frames deep, recurses until the frame stack overflows, or is cancelled mid-run
+Kinds == {"normal", "error", "panic", "deeppanic", "overflow", "cancelled"}
+\* the context the invocation runs under: cancellable, or context.Background() (no Done channel)
+CtxKinds(kind) == IF kind \in {"normal", "error"} THEN {"cancel", "background"} ELSE {"cancel"}
+Expected(kind) == CASE kind = "normal" -> "value" [] kind = "error" -> "index error" [] kind \in {"panic", "deeppanic"} -> "panic"
                     [] kind = "overflow" -> "anyerror" [] kind = "cancelled" -> "ctxerr"
 \* invocation i may cancel the context of any earlier invocation (the interesting ones: those that finished)
-Inv(i) == [api : Apis, kind : Kinds, late : SUBSET (1..(i - 1))]
+Inv(i) == UNION {[api : Apis, kind : {k}, ctx : CtxKinds(k), late : SUBSET (1..(i - 1))] : k \in Kinds}
 RECURSIVE Hist(_)
 Hist(n) == IF n = 0 THEN {<<>>} ELSE {Append(h, v) : h \in Hist(n - 1), v \in Inv(n)}
 Histories == UNION {Hist(n) : n \in 1..MaxLen}
-\* a context is cancelled late at most once, and a "cancelled" invocation's own context is already done
-WellFormed(h) == \A i \in 1..Len(h): \A j \in 1..Len(h): i # j => h[i].late \cap h[j].late = {}
+RECURSIVE SumLate(_,_)
+SumLate(h, i) == IF i > Len(h) THEN 0 ELSE Cardinality(h[i].late) + SumLate(h, i + 1)
+\* a context is cancelled late at most once; only contexts that can be cancelled are cancelled late
+WellFormed(h) == /\ \A i \in 1..Len(h): \A j \in 1..Len(h): i # j => h[i].late \cap h[j].late = {}
+                 /\ \A i \in 1..Len(h): \A c \in h[i].late: h[c].ctx = "cancel"
+                 /\ SumLate(h, 1) <= MaxLate
 VARIABLE h
 Init == h \in {x \in Histories : WellFormed(x)}
 Next == UNCHANGED h
